@@ -16,6 +16,11 @@ INTERN = "parse::dlt_message_intern"
 CUTS = ("parse::dlt_argument",)
 
 _cache = {}
+# parameter names are fixed by the rules (a rename of a parameter in /repo must not change any verdict)
+CANON_NAMES = {
+    "parse::dlt_consume_msg": ["input"], "parse::dlt_standard_header": ["input"], "parse::dlt_extended_header": ["input"], "parse::dlt_storage_header": ["input"],
+    "parse::forward_to_next_storage_header": ["input"], "parse::dlt_argument": ["input"], "parse::skip_storage_header": ["input"], "parse::dlt_message": ["input", "filter_config_opt", "with_storage_header"],
+}
 
 
 def mk_engine(F, cuts=CUTS, budget=3000000):
@@ -48,7 +53,7 @@ def level1(ctx):
         if b is None:
             _cache[k] = (None, None)
         else:
-            outs = eng.call_path(INTERN, eng.symbolic_args(b))
+            outs = eng.call_path(INTERN, eng.symbolic_args(b, names=["input", "filter_config_opt", "with_storage_header"]))
             _cache[k] = (eng, outs)
     return _cache[k]
 
@@ -65,12 +70,16 @@ def standalone(ctx, path, cuts=CUTS, names=None, plain=False):
         if b is None:
             _cache[k] = (None, None)
         else:
+            if names is None:
+                names = CANON_NAMES.get(path)
             outs = eng.call_path(path, eng.symbolic_args(b, names=names))
             _cache[k] = (eng, outs)
     return _cache[k]
 
 
 def first_arg_name(F, path):
+    if path in CANON_NAMES:
+        return CANON_NAMES[path][0]
     b = F.body(path)
     for d in b.get("debug", []):
         if d.get("arg") == 1 and not d["p"]["p"]:
